@@ -63,7 +63,7 @@ func (u *Unit) bump(st *State, key string, by int64) {
 	st.ghost[key] = u.define(Arith("+", cur, IntLit(by)), "cnt")
 }
 
-func (u *Unit) event(fr *Frame, st *State, name string, binds map[string]Val, where string) {
+func (u *Unit) event(fr *Frame, st *State, name string, binds map[string]Val, where string, alts ...string) {
 	if strings.HasPrefix(name, "call ") {
 		u.bump(st, "calls:"+name[5:], 1)
 	}
@@ -83,7 +83,15 @@ func (u *Unit) event(fr *Frame, st *State, name string, binds map[string]Val, wh
 	}
 	for _, h := range hooks {
 		if h.Event != name && u.eng.normEvent(h.Event) != name {
-			continue
+			matched := false
+			for _, a := range alts {
+				if h.Event == a {
+					matched = true
+				}
+			}
+			if !matched {
+				continue
+			}
 		}
 		env := u.newEnv(fr, st, u.entry)
 		if h.As != "" {
@@ -394,7 +402,7 @@ func (u *Unit) dynCall(fr *Frame, st *State, f *Scalar, args []Val, sig *types.S
 	case strings.HasPrefix(f.Origin, "param:"):
 		name = f.Origin[6:]
 	case strings.HasPrefix(f.Origin, "cancel"):
-		name = "cancel"
+		name = "ctxcancel"
 		if f.Aux != nil {
 			u.setCancelled(st, u.termOf(f.Aux), TTrue)
 		}
@@ -408,10 +416,14 @@ func (u *Unit) dynCall(fr *Frame, st *State, f *Scalar, args []Val, sig *types.S
 		m["ctx"] = f.Aux
 	}
 	u.oblige("nopanic.nil_func", []string{"C13"}, name, st.pc, Not(Eq(f.T, TZero)), where, "call of nil function value")
-	u.event(fr, st, "call "+name, m, where)
+	full := name
+	if strings.HasPrefix(f.Origin, "field:") {
+		full = f.Origin[6:]
+	}
+	u.event(fr, st, "call "+name, m, where, "call "+full)
 	res := u.freshResults(sig, "r_"+name, st.pc)
 	bindResult(m, res)
-	u.event(fr, st, "ret "+name, m, where)
+	u.event(fr, st, "ret "+name, m, where, "ret "+full)
 	return res
 }
 
